@@ -70,3 +70,7 @@ CLAIMS["C18"] = ("fault_enumeration",
     "The harness owns the fault point: an exception is raised on entry of the k-th call into any rtflite function during an export (sys.settrace). Quick enumerates every distinct call site at its first, middle and last instance for 4 exports x 4 documents; thorough enumerates EVERY call instance for two documents; converter stub behaviours x target states x target names are enumerated exhaustively and Hypothesis draws further combinations. Oracle = file-system snapshot invariants (target bytes, directory listing, private TMPDIR) before/after and equality of the written file with the string the same rtf_encode() call returned. Holds on every fault point explored; faults inside polars / pydantic / the OS are out of reach.",
     "Fault granularity = rtflite function-call boundaries; LibreOffice replaced by a stub converter object; newly created parent directories are not debris.",
     "fault injection at enumerated call boundaries (harness-owned), file-system invariant oracle; Hypothesis for the remaining dimensions")
+CLAIMS["C07"] = ("exploration",
+    "Hypothesis-generated documents with independent random styles for the four page/body border settings, all header modes, footnote/source as table/paragraph/absent under every placement, 1..many pages, three strategies, user border matrices on interior rows, and 2-3 section documents, plus an exhaustive footnote x source x placement x header x strategy x pages product; oracle on the \\clbrdrt / \\clbrdrb styles of the independently parsed rows for the four clauses (document top, document bottom, page-break closing / opening edges, interior edges). " + _EXPL,
+    _READER + " Row 0 of user border matrices stays default; body.border_first/last scalar.",
+    "property-based testing: Hypothesis border configurations + exhaustive placement product, clause-wise validity predicate on parsed cell borders")
